@@ -386,6 +386,39 @@ def check_mapped_inner_default(ctx, i):
     ctx.case({"form": "mapped-inner-default", "f": f.__name__, "n": len(items)}, True)
 
 
+def check_map_missing_input(ctx, i):
+    """Errors collected (continue mode): an item whose single run is REJECTED (a required input is missing) is one
+    FAILED result carrying that error, under both runners; raise mode raises it."""
+    import asyncio
+
+    from hypergraph import AsyncRunner, FunctionNode, Graph, SyncRunner
+
+    rng = ctx.rng
+
+    def f(x, w):
+        return (x, w)
+
+    g = Graph([FunctionNode(f, name="f", output_name="y")], name="mi")
+    items = [f"it{j}" for j in range(rng.randint(1, 3))]
+    mc = rng.choice([None, 1, 2])
+    for runner in ("sync", "async"):
+        for mode in ("continue", "raise"):
+            try:
+                if runner == "sync":
+                    res = SyncRunner().map(g, {"x": list(items)}, map_over="x", error_handling=mode)
+                else:
+                    res = asyncio.run(AsyncRunner().map(g, {"x": list(items)}, map_over="x", error_handling=mode, **({"max_concurrency": mc} if mc else {})))
+                out = [(r.status.value, type(r.error).__name__) for r in res]
+            except Exception as e:  # noqa: BLE001
+                out = ("raised", type(e).__name__)
+            ctx.obs["map_calls"] += 1
+            ctx.obs["items_compared"] += len(items)
+            want = [("failed", "MissingInputError")] * len(items) if mode == "continue" else ("raised", "MissingInputError")
+            if out != want:
+                ctx.violation("C10:item-mismatch", f"runner.map/{runner}/{mode}: every item lacks the required input w (a single run raises MissingInputError): got {out}, expected {want}", {"form": "runner.map with a missing required input", "runner": runner, "mode": mode, "items": items, "max_concurrency": mc})
+    ctx.case({"form": "map-missing-input", "n": len(items)}, True)
+
+
 def check_nested_map(ctx, i):
     """A mapping node inside a mapping node: xs = list of lists."""
     rng = ctx.rng
@@ -425,5 +458,7 @@ def run(ctx):
             check_node_clone(ctx, i)
         elif i % 20 == 9:
             check_mapped_inner_default(ctx, i)
+        elif i % 20 == 19:
+            check_map_missing_input(ctx, i)
         else:
             check_nested_map(ctx, i)
